@@ -124,6 +124,8 @@ class Env:
             return f"typing.Final[{self.render(t['a'], home)}]"
         if k == "classvar":
             return f"typing.ClassVar[{self.render(t['a'], home)}]"
+        if k == "srcname":          # a type written with a specific source spelling (e.g. "dt.date")
+            return t["src"]
         if k == "any":
             return "typing.Any"
         if k == "object":
@@ -149,10 +151,12 @@ class Env:
         fl = d["flavour"]
         fields = []
         for f in d["fields"]:
+            naux = len(self.aux)
             src = self.render(f[1], home)
             # a field whose type mentions a class that is not defined yet (later in this module, in another
-            # module, or the class itself) is written as a string annotation, as users write forward references
-            if not self._mentions(f[1]) <= defined:
+            # module, or the class itself) -- or a NewType/alias, which are defined after the classes -- is
+            # written as a string annotation, as users write forward references
+            if not self._mentions(f[1]) <= defined or len(self.aux) > naux:
                 src = repr(src)
             fields.append((f[0], src, f[2], f[1]))
 
@@ -217,7 +221,7 @@ class Env:
             bodies[d["module"]].append(self._class_src(d.get("py", name), d, frozenset(defined[d["module"]])))
             defined[d["module"]].add(name)
         root_src = self.render(root, root_home) if root is not None else None
-        header = ("import collections, collections.abc, dataclasses, datetime, decimal, enum, fractions, pathlib, re, typing, uuid\n")
+        header = ("import datetime as dt\nimport collections, collections.abc, dataclasses, datetime, decimal, enum, fractions, pathlib, re, typing, uuid\n")
         # create empty modules first so that cross-module references resolve lazily via attribute access
         for m in mods:
             mod = types.ModuleType(self.modname(m))
@@ -347,6 +351,8 @@ def values(t: dict, env: Env, rng, n: int = 4, depth: int = 0) -> list:
         return [lit_value(v) for v in t["vs"]]
     if k in ("newtype", "alias", "salias", "final", "classvar"):
         return values(t["a"], env, rng, n, depth)
+    if k == "srcname":
+        return values(t["as"], env, rng, n, depth)
     if k == "coll":
         inner = values(t["a"], env, rng, 3, depth + 1)
         ctor = CONCRETE[t["c"]]
